@@ -44,6 +44,60 @@ def seeds(tier):
     return out
 
 
+def anchor_positions(path, n):
+    """positions right behind the structures the header of the seed points to: .NET metadata root / stream headers / table stream,
+    DEX id tables, map list and class definitions, ELF section and program headers, PE data directories' targets are found by
+    signature or by reading the seed's own header fields (no parsing beyond that)"""
+    import struct
+    try:
+        d = open(path, "rb").read()
+    except OSError:
+        return []
+    out = set()
+    def span(o, k=96):
+        if 0 <= o < n: out.update(range(o, min(n, o + k)))
+    for sig in (b"BSJB", b"#~\0", b"#-\0", b"#Strings\0", b"#US\0", b"#GUID\0", b"#Blob\0"):
+        i = d.find(sig)
+        while i >= 0 and len(out) < 4000:
+            span(i, 64); i = d.find(sig, i + 1)
+    if d[:3] == b"dex" and n >= 112:
+        for off in range(0x34, 0x70, 4):                      # map_off and the (size, off) pairs of the id tables / class_defs / data
+            v = struct.unpack_from("<I", d, off)[0]
+            span(v, 64)
+        cls_size, cls_off = struct.unpack_from("<II", d, 0x60)
+        for k in range(min(cls_size, 4)):
+            if cls_off + 32 * k + 32 <= n:
+                for fo in (24, 12, 20, 28):                   # class_data_off, interfaces_off, annotations_off, static_values_off
+                    span(struct.unpack_from("<I", d, cls_off + 32 * k + fo)[0], 48)
+    if d[:4] == b"\x7fELF" and n >= 64:
+        le = d[5] == 1
+        if d[4] == 2:
+            span(struct.unpack_from("<Q" if le else ">Q", d, 0x20)[0], 128); span(struct.unpack_from("<Q" if le else ">Q", d, 0x28)[0], 192)
+        else:
+            span(struct.unpack_from("<I" if le else ">I", d, 0x1c)[0], 96); span(struct.unpack_from("<I" if le else ">I", d, 0x20)[0], 160)
+    if d[:2] == b"MZ" and n >= 0x40:
+        pe = struct.unpack_from("<I", d, 0x3c)[0]
+        if pe + 0x108 <= n and d[pe:pe + 4] == b"PE\0\0":
+            span(pe, 0x108)
+            nsec = struct.unpack_from("<H", d, pe + 6)[0]
+            opt = struct.unpack_from("<H", d, pe + 20)[0]
+            sec = pe + 24 + opt
+            secs = []
+            for k in range(min(nsec, 16)):
+                if sec + 40 * k + 40 <= n:
+                    va, rsz, roff = struct.unpack_from("<I", d, sec + 40 * k + 12)[0], struct.unpack_from("<I", d, sec + 40 * k + 16)[0], struct.unpack_from("<I", d, sec + 40 * k + 20)[0]
+                    secs.append((va, rsz, roff))
+            span(sec, 40 * min(nsec, 8))
+            ddir = pe + 24 + (96 if struct.unpack_from("<H", d, pe + 24)[0] == 0x10b else 112)
+            for k in range(16):
+                if ddir + 8 * k + 8 > n: break
+                rva = struct.unpack_from("<I", d, ddir + 8 * k)[0]
+                for va, rsz, roff in secs:
+                    if va <= rva < va + max(rsz, 1):
+                        span(roff + rva - va, 72)
+    return sorted(out)
+
+
 def boundary_values(n, width):
     vals = {0, 1, n - 1, n, n + 1, 0x7fff, 0xffff, 0x7fffffff, 0x80000000, 0xffffffff, (1 << (8 * width)) - 1}
     return sorted(v for v in vals if 0 <= v < (1 << (8 * width)))
@@ -79,7 +133,19 @@ def c06(res, tier, seed):
                     muts.append(("trunc", t, 0, 0, 0))
             # every byte position (header region exhaustively, stride sampling above) as a potential field
             positions = list(range(0, min(n, 512))) + list(range(512, n, max(1, n // 400)))
+            anchors = anchor_positions(path, n)
             field = []
+            # the tables a format points to from its header (found by following the seed's own offsets / signatures): half of the
+            # budget goes to the bytes right behind them
+            afield = []
+            for p in anchors:
+                for w in (1, 2, 4):
+                    if p + w > n: continue
+                    for v in boundary_values(n, w):
+                        afield.append(("field", p, w, v, 0))
+            if len(afield) > budget_per_seed // 2:
+                afield = r.sample(afield, budget_per_seed // 2)
+            muts += afield
             for p in positions:
                 for w in (1, 2, 4, 8):
                     if p + w > n: continue
